@@ -489,15 +489,22 @@ func replayMain(t *testing.T, path string) {
 	}
 }
 
-// TestHashHelper registers the pool members named in VERIF_HASH_ORDER and prints the hash.
+// TestHashHelper registers the pool members named in VERIF_HASH_ORDER and prints the hash. The
+// order is a sequence of groups separated by '|': every group is one variadic GobRegister call.
 func TestHashHelper(t *testing.T) {
 	order := os.Getenv("VERIF_HASH_ORDER")
 	if order == "" {
 		t.Skip()
 	}
 
-	for _, c := range order {
-		cache.GobRegister(hashPool[int(c-'0')])
+	for _, grp := range strings.Split(order, "|") {
+		var vals []interface{}
+
+		for _, c := range grp {
+			vals = append(vals, hashPool[int(c-'0')])
+		}
+
+		cache.GobRegister(vals...)
 	}
 
 	fmt.Printf("TYPESHASH=%d\n", cache.GobTypesHash())
